@@ -169,6 +169,7 @@ func generate() {
 	genTextLengths()
 	genErrorPaths()
 	genBbs()
+	genRaces()
 	genHistories()
 	genMalformed()
 	run.Exhaust = false
@@ -328,6 +329,94 @@ func genBbs() {
 			execLine(commentLine("bbs", "sysop", sysopID[:], artName('M', k), 1+i%3, randText(30), ipArr(ips[i%len(ips)])))
 		}
 	}
+}
+
+func beginLine(id string, lvl string, user []byte, req string, ctype int, text []byte, ip []byte) string {
+	return "begin " + id + strings.TrimPrefix(commentLine("ptt", lvl, user, req, ctype, text, ip), "comment")
+}
+
+// interleaved commenters: a commenter looks its entry up, is held on the article lock, others move the score to
+// (or across, or away from) the bound, then it updates the index from its stale copy
+func genRaces() {
+	u := userArr("A1", nil)
+	ip := ipArr("5.5.5.5")
+	type plan struct {
+		start  int   // score when the held commenter looks the entry up
+		held   int   // its comment type
+		others []int // comment types that complete in between
+	}
+	plans := []plan{
+		{99, 1, []int{1}}, {-99, 2, []int{2}}, // stale 99 / -99, on-disk bound reached in between
+		{100, 1, []int{2}}, {-100, 2, []int{1}}, // stale bound (no delta), score moved away
+		{98, 1, []int{1, 1}}, {-98, 2, []int{2, 2, 2}},
+		{0, 2, []int{1, 3}}, {100, 2, []int{2}},
+	}
+	hist := func(ps []plan, old bool, attr uint32) {
+		var dir []byte
+		for k, p := range ps {
+			dir = append(dir, mkRec(artName('M', k), int8(p.start), 0, k)...)
+		}
+		execLine(resetLine(attr, old, true, []byte("h\n"), dir))
+		for k, p := range ps {
+			execLine(beginLine(fmt.Sprintf("t%d", k), "user", u, artName('M', k), p.held, []byte("held"), ip))
+		}
+		for k, p := range ps {
+			for _, t := range p.others {
+				execLine(commentLine("ptt", "sysop", userArr("SYSOP", nil), artName('M', k), t, randText(10), ip))
+			}
+		}
+		for k := range ps {
+			execLine("finish " + fmt.Sprintf("t%d", k))
+		}
+		execLine("dump")
+	}
+	hist(plans, false, 0)
+	n := 1
+	if run.Thorough() {
+		n = 12
+	}
+	for h := 0; h < n; h++ {
+		var ps []plan
+		for k := 0; k < 8; k++ {
+			p := plan{held: 1 + run.R.Intn(3)}
+			switch run.R.Intn(4) {
+			case 0:
+				p.start = 100 - run.R.Intn(3)
+			case 1:
+				p.start = -100 + run.R.Intn(3)
+			case 2:
+				p.start = []int{127, -128, 101, -101}[run.R.Intn(4)]
+			default:
+				p.start = run.R.Intn(201) - 100
+			}
+			for i := run.R.Intn(4); i > 0; i-- {
+				p.others = append(p.others, 1+run.R.Intn(3))
+			}
+			ps = append(ps, p)
+		}
+		hist(ps, run.R.Intn(3) == 0, attrOf(run.R.Intn(4)))
+	}
+	// protocol edges: a ticket id in use, a second ticket on the same article, finishing an unknown ticket,
+	// reset / file while a ticket is pending, a held request that is refused in phase A
+	var dir []byte
+	for k := 0; k < 3; k++ {
+		dir = append(dir, mkRec(artName('M', k), 99, byte(k/2)*byte(ptttype.FILE_MARKED|ptttype.FILE_SOLVED), k)...)
+	}
+	execLine(resetLine(0, false, false, []byte("h\n"), dir))
+	execLine(beginLine("a", "user", u, artName('M', 0), 1, []byte("x"), ip))
+	execLine(beginLine("a", "user", u, artName('M', 1), 1, []byte("x"), ip))
+	execLine(beginLine("b", "user", u, artName('G', 0), 1, []byte("x"), ip))
+	execLine(beginLine("TOOLONGID", "user", u, artName('M', 1), 1, []byte("x"), ip))
+	execLine("finish zz")
+	execLine(resetLine(0, false, false, []byte("h\n"), dir))
+	execLine("file " + hx.Hex([]byte(artName('M', 1))) + " 00")
+	execLine(beginLine("c", "user", u, artName('M', 2), 1, []byte("locked entry"), ip))
+	execLine(beginLine("d", "user", u, "M.1400000000.A.001", 1, []byte("nobody"), ip))
+	execLine(commentLine("ptt", "sysop", userArr("SYSOP", nil), artName('M', 0), 1, []byte("in between"), ip))
+	execLine("finish c")
+	execLine("finish d")
+	execLine("finish a")
+	execLine("finish a")
 }
 
 // random histories: 1-30 comments on 2-6 articles
